@@ -186,6 +186,7 @@ func run(r *ev.Run) {
 			}
 		}
 	}
+	runSpecialWorldsC08(r)
 	r.Require("world_features", "dangling-edge/camliMember", "dangling-edge/camliPath", "dangling-edge/seeAlso")
 	r.Require("world_features", "custom-edge/seeAlso", "custom-edge/seeAlso-removed", "custom-edge/seeAlso-superseded", "custom-edge/camliContent-names-permanode",
 		"relation-edge-type/parent/custom:seeAlso", "relation-edge-type/parent/custom:camliContent", "relation-edge-type/child/custom:seeAlso", "relation-edge-type/child/custom:camliContent", "relation-edge-type/parent/default-edge", "relation-edge-type/parent/non-ref-attribute",
@@ -520,6 +521,20 @@ func judge(r *ev.Run, w *sworld, wid string, c *search.Constraint, cj []byte, st
 	okFull, why := matchesList(full)
 	if okFull {
 		noteOutcome(r, eff, lim)
+		if sortedSource && len(w.features) > 0 && (w.features["far/date-attr-outside-1678-2262"] > 0 || w.features["created-time/exactly-unix-epoch"] > 0) {
+			for _, b := range full {
+				t, has := key(b)
+				if has && !fitsInt64Nanos(t) {
+					r.Note("special_times", "sorted-source/result-has-time-outside-1678-2262")
+					if lim > 0 && lim < len(full) {
+						r.Note("special_times", "sorted-source/limit-cuts-result-with-time-outside-1678-2262")
+					}
+				}
+				if has && eff == search.CreatedDesc && t.Equal(unixEpoch) {
+					r.Note("special_times", "sorted-source/result-has-time-exactly-unix-epoch")
+				}
+			}
+		}
 		return
 	}
 	if sortedSource && len(omitted) > 0 {
